@@ -1,5 +1,5 @@
 import HappyProofs.C17.PBProps
-import HappyProofs.C17.ChainProps
+import HappyProofs.C17.ChainReach3
 import HappyProofs.C17.MLMerge
 /-!
 # C17 — property theorems
@@ -112,25 +112,15 @@ theorem chain_read_committed (craq : Bool) (n : Nat) (hn : 2 ≤ n) (acts : List
     (by rw [hs.1, hs.2]; exact hc)
   rw [hs.1] at this; exact this
 
-/-- full convergence statement for the chain (not proved: needs the delivery-completeness
-    invariant "every accepted write is applied at, or still in flight towards, every node") -/
-def chain_quiescent_convergence_full : Prop :=
-  ∀ (craq : Bool) (n : Nat), 2 ≤ n → ∀ (acts : List Act),
-    Chain.quiescent (Chain.run (Chain.init craq n) acts) →
-    ∀ i, i < n → ∀ k, (Chain.run (Chain.init craq n) acts).store i k =
-      (Chain.run (Chain.init craq n) acts).store 0 k
-
-/-- proved part: in every reachable state the nodes' versions are ordered along the chain and a
-    store is a function of the applied sequence, so as soon as the TAIL has caught up with the HEAD
-    on a key, *all* nodes hold the same value for it (no stale Propagate can undo that). -/
-theorem chain_quiescent_convergence_partial (craq : Bool) (n : Nat) (hn : 2 ≤ n) (acts : List Act)
-    (k : Nat)
-    (hk : (Chain.run (Chain.init craq n) acts).aseq (n - 1) k = (Chain.run (Chain.init craq n) acts).aseq 0 k)
-    (i : Nat) (hi : i < n) :
+/-- CRAQ or not, any overtaking of messages: once the head's puts have landed, every message is
+    delivered and every handler has finished, every node holds the head's value for every key. -/
+theorem chain_quiescent_convergence (craq : Bool) (n : Nat) (hn : 2 ≤ n) (acts : List Act)
+    (hq : Chain.quiescent (Chain.run (Chain.init craq n) acts)) (i : Nat) (hi : i < n) (k : Nat) :
     (Chain.run (Chain.init craq n) acts).store i k = (Chain.run (Chain.init craq n) acts).store 0 k := by
   have hinv := Chain.run_inv _ acts (Chain.init_inv craq n hn)
+  have hfr := Chain.fr_run _ acts (Chain.init_inv craq n hn) (Chain.fr_init craq n)
   have hs := Chain.run_static (Chain.init craq n) acts
-  exact Chain.caught_up_agree _ hinv k (by rw [hs.1]; exact hk) i (by rw [hs.1]; exact hi)
+  exact Chain.quiescent_agree _ hinv hfr hq i (by rw [hs.1]; exact hi) k
 
 /-- non-vacuity: CRAQ chain of 3, two writes of key 0 in flight, the second Propagate overtakes the
     first between nodes 1 and 2; both get acknowledged, every node ends on the newer value, and
@@ -141,6 +131,11 @@ example :
        .dl 3, .rs 4, .dl 2, .rs 5, .rs 4, .rs 5]
     s.err = none ∧ s.store 0 0 = some 2 ∧ s.store 1 0 = some 2 ∧ s.store 2 0 = some 2 ∧
       s.dirty 0 0 = true ∧ s.aseq 2 0 = 2 := by decide
+
+/-- non-vacuity of `quiescent`: the same run continued until everything is delivered -/
+example :
+    Chain.quiescentB (Chain.run (Chain.init false 2)
+      [.cw 0 0 0 1, .rs 0, .rs 0, .dl 0, .rs 1, .rs 1, .dl 1, .rs 0]) = true := by decide
 
 /-! ## multi-leader (repaired tree: merge decided at the instant a version is installed) -/
 
